@@ -3,7 +3,8 @@
 (selftest/benign/*.diff) to a scratch copy of /repo and runs every registered
 check against it; every check must stay silent (exit 0).
 
-usage: tools/run_benign.py [--runs=N]"""
+usage: tools/run_benign.py [--runs=N] [name-substring ...]
+(with substrings only the matching diffs run and RESULTS.json is merged)"""
 import glob, json, os, shutil, subprocess, sys, tempfile
 HERE = os.path.dirname(os.path.dirname(os.path.abspath(__file__)))
 runs = '600'
@@ -11,9 +12,15 @@ for a in sys.argv[1:]:
   if a.startswith('--runs='):
     runs = a.split('=')[1]
 checks = [c['property_id'] for c in json.load(open(os.path.join(HERE, 'MANIFEST.json')))['checks']]
+only = [a for a in sys.argv[1:] if not a.startswith('--')]
 results = {}
+RES = os.path.join(HERE, 'selftest', 'benign', 'RESULTS.json')
+if only and os.path.exists(RES):
+  results = json.load(open(RES))
 for patch in sorted(glob.glob(os.path.join(HERE, 'selftest', 'benign', '*.diff'))):
   name = os.path.basename(patch)
+  if only and not any(o in name for o in only):
+    continue
   scratch = tempfile.mkdtemp(prefix='ginsim_benign_', dir='/dev/shm')
   try:
     subprocess.check_call(['rsync', '-a', '--exclude', '.git', '/repo/', scratch + '/'])
@@ -34,5 +41,5 @@ for patch in sorted(glob.glob(os.path.join(HERE, 'selftest', 'benign', '*.diff')
     print(name, 'gin tests:', results[name]['gin_tests'], '| alarms:', alarms or 'none')
   finally:
     shutil.rmtree(scratch, ignore_errors=True)
-json.dump(results, open(os.path.join(HERE, 'selftest', 'benign', 'RESULTS.json'), 'w'), indent=1, sort_keys=True)
+json.dump(results, open(RES, 'w'), indent=1, sort_keys=True)
 sys.exit(1 if any(rc != 0 for r in results.values() for rc in r['checks'].values()) else 0)
